@@ -618,8 +618,10 @@ def gen_dag_file(rnd, pid, idx, path, deps, profile):
         stmts.append('out json {v = v};')          # one output statement: its per-file lock lives in the environment shared by the run
     build_error = None
     if profile == 'broken':
-        stmt = rnd.choice(BUILD_ERRORS + MALFORMED_STATIC)
-        stmt = stmt % (pid * 10 + idx) if '%d' in stmt else (stmt % (tag + '-static') if '%s' in stmt else stmt)
+        # (asserts of a statically visible wrong shape are left to generated_orders: the reference says the type checker rejects them, the
+        # statement says they count as failed assertions -- whether a file IMPORTING such a file builds is not decided by either)
+        stmt = rnd.choice(BUILD_ERRORS)
+        stmt = stmt % (pid * 10 + idx) if '%d' in stmt else stmt
         pos = rnd.choice(['first', 'middle', 'last'])
         stmts.insert({'first': 1, 'middle': 1 + (len(stmts) - 1) // 2, 'last': len(stmts)}[pos], stmt)
         build_error = '%s statement does not build (`%s`)' % (pos, stmt)
@@ -657,7 +659,7 @@ def gen_project(rnd, pid, nested):
         edges += len(deps)
         if lib is not None and rnd.random() < 0.4:
             deps.insert(rnd.randint(0, len(deps)), lib)
-        f = gen_dag_file(rnd, pid, i, path, deps, rnd.choice(['clean', 'clean', 'fails', 'fails', 'broken']))
+        f = gen_dag_file(rnd, pid, i, path, deps, rnd.choice(['clean', 'clean', 'clean', 'clean', 'fails', 'fails', 'broken', 'broken']))
         tests.append(f)
         files.append(f)
     return Project(pid, files)
@@ -786,7 +788,7 @@ def standin_import_dag(tier, seed):
     thorough = tier == 'thorough'
     projects = fixed_projects()
     nfixed = len(projects)
-    for i in range(34 if thorough else 4):
+    for i in range(28 if thorough else 4):
         projects.append(gen_project(rnd, nfixed + i, nested=(i % 2 == 1)))
     work = tempfile.mkdtemp(prefix='verif_c13d_')
     jobs, meta = [], []
@@ -804,7 +806,7 @@ def standin_import_dag(tier, seed):
              'file), half of them spread over nested directories with repeated base names, half with a shared lib.ucg (30%% of those broken); each project run as: every file alone, all files in '
              'every order (<= 3 files) or %d sampled orders, ordered pairs, MULTISETS (x x / x y x / whole list with repeats / one file under several spellings of its path), and through '
              'directories (-r ., -r <dirs>, <dirs>, -r . <file>%s): %d invocations; own verdict, own log and exit status against the reference, equal in every shape'
-             % (nfixed, len(projects) - nfixed, len(BUILD_ERRORS + MALFORMED_STATIC), 12 if thorough else 5, ', -r . .' if thorough else '', len(jobs)))
+             % (nfixed, len(projects) - nfixed, len(BUILD_ERRORS), 12 if thorough else 5, ', -r . .' if thorough else '', len(jobs)))
     alone = {}
     for (proj, args, cnt, k), (rc, so, se) in zip(meta, res):
         if k < len(proj.tests):
